@@ -27,7 +27,7 @@ ASSUMPTIONS = [
     "the sandbox runs as root: permission-denied paths are not reachable",
 ]
 MINIMUM = {"syncs": 120, "entries_compared": 3000, "symlinks_compared": 100, "resync_steps": 60}
-SHARD_TIMEOUT = {"quick": 240, "thorough": 3000}
+SHARD_TIMEOUT = {"quick": 150, "thorough": 3000}
 
 NAMES = ["a", "b.txt", "with space", "ünï-cödé", "-dash", "new\nline", "日本", "x" * 40, ".hidden", "tab\there", "q'uote\"", "CAPS"]
 
